@@ -151,17 +151,21 @@ async def sk_delivery_while_an_expunge_is_running(hp, w, rnd, ctx):
         await w.op_append(a, "INBOX", flags=[["\\Deleted"], ["\\Seen"], ["\\Deleted", "\\Seen"]][i % 3])
     await w.op_select(a, "INBOX")
     await w.op_select(b, "INBOX")
+    await w.ensure_uids_known(a)
     await w.observe()
-    for how in ("expunge", "move", "close"):
+    for how in ("fetch", "expunge", "move", "close"):
         if a.nview() < 2:
             break
-        if how != "expunge":
+        if how not in ("expunge", "fetch"):
             await w.op_store(a, [1, 2], "add", ["\\Deleted"])
         ev = asyncio.Event()
         a.s.writer.stall_ev = ev
         w.no_probe = True
         try:
-            if how == "expunge":
+            if how == "fetch":
+                # a body fetch of everything, not peeking: it changes flags (and rewrites .mh_sequences) when it ends
+                task = asyncio.ensure_future(w.op_fetch(a, list(range(1, a.nview() + 1)), "UID BODY[]", sets_seen=True))
+            elif how == "expunge":
                 task = asyncio.ensure_future(w.op_expunge(a))
             elif how == "move":
                 task = asyncio.ensure_future(w.op_copy(a, [1, 2], "other", move=True))
@@ -199,7 +203,18 @@ async def sk_delivery_while_a_command_is_executing(hp, w, rnd, ctx):
         await w.op_append(a, "INBOX", flags=rnd.choice([["\\Seen"], None, ["\\Seen", "kw1"]]))
     await w.op_select(a, "INBOX")
     await w.op_select(c, "INBOX")
-    for rounds in range(3):
+    if ctx["seed"] % 2 == 0 or rnd.random() < 0.5:
+        # first the mailbox gets a history in which UIDs have run ahead of the message numbers: the highest message
+        # is expunged and a delivery takes its number (noticed and announced before the rest begins)
+        await w.op_store(a, [5], "add", ["\\Deleted"])
+        await w.op_expunge(a)
+        w.deliver("INBOX", 1, unseen=[True])
+        await w.rig.advance(6)
+        await w.op_noop(a)
+        await w.op_noop(c)
+        await w.observe()
+        w.stats["uids_ahead_of_message_numbers"] += 1
+    for rounds in range(4):
         x = w.rig.session("X")
         r = await x.cmd("SELECT INBOX")
         ev = asyncio.Event()
@@ -209,16 +224,25 @@ async def sk_delivery_while_a_command_is_executing(hp, w, rnd, ctx):
         unseen = [rnd.random() < 0.6 for _ in range(rnd.randint(1, 2))]
         w.no_probe = True
         try:
+            kind = rnd.choice(["store", "store", "store_del", "fetch_seen"])
+            if rounds == 0:
+                # (the first round is always: one unseen message filed, then a STORE on another message)
+                unseen, kind = [True], "store"
+            elif rounds == 1:
+                # (the second: two messages filed, then a non-peek body FETCH, which changes flags at its end)
+                unseen, kind = [False, True], "fetch_seen"
             w.deliver("INBOX", len(unseen), unseen=unseen)
             w.stats["deliveries_during_executing_command"] += 1
-            kind = rnd.choice(["store", "store", "store_del", "fetch_seen"])
             n = a.nview()
             if kind == "store":
                 await w.op_store(a, [rnd.randint(1, n)], rnd.choice(["add", "remove"]), [rnd.choice(["\\Flagged", "\\Answered", "kw1"])], silent=rnd.random() < 0.3)
             elif kind == "store_del":
                 await w.op_store(a, [rnd.randint(1, n)], "add", ["\\Deleted"])
             else:
-                await w.op_fetch(a, [rnd.randint(1, n)], "UID BODY[]", sets_seen=True)
+                # a message that is still unseen, if the session knows one: the FETCH then changes its flags
+                b_ = w.boxes["INBOX"]
+                unseen_pos = [i + 1 for i, cell in enumerate(a.view or []) if cell[0] is not None and b_.by_uid(cell[0]) is not None and "\\Seen" not in b_.by_uid(cell[0]).flags]
+                await w.op_fetch(a, [rnd.choice(unseen_pos) if unseen_pos else rnd.randint(1, n)], "UID BODY[]", sets_seen=True)
         finally:
             w.no_probe = False
             ev.set()
